@@ -1,55 +1,229 @@
-"""pandas-lite: exactly the calls HyperTuner.execute makes."""
+"""pandas-lite: the part of pandas that HyperTuner.execute (and plausible rewrites of it) uses, in pure Python, so that
+symbolic scores survive.  Differentially validated against the real pandas at every run (engine/differential.py).
+`std` is replaced by the sample *variance* (only its rank is ever consumed; NaN for a single trial, like pandas)."""
+import math
+
+NAN = float("nan")
+
+
+def _isnan(v):
+    return isinstance(v, float) and v != v
+
+
 class Series:
-    def __init__(self, vals): self.vals = list(vals)
+    def __init__(self, vals, index=None):
+        self.vals = list(vals)
+        self.index = list(index) if index is not None else list(range(len(self.vals)))
+
     @property
-    def values(self): return self.vals
-    def tolist(self): return list(self.vals)
+    def values(self):
+        return self.vals
+
+    def to_numpy(self, *a, **k):
+        import numpy as np
+        arr = np.empty(len(self.vals), dtype=object)
+        for i, v in enumerate(self.vals):
+            arr[i] = v
+        return arr
+
+    def tolist(self):
+        return list(self.vals)
+
+    def __len__(self):
+        return len(self.vals)
+
+    def __iter__(self):
+        return iter(self.vals)
+
+    def __getitem__(self, i):
+        return self.vals[self.index.index(i)] if not isinstance(i, slice) else Series(self.vals[i], self.index[i])
+
+    def _bin(self, other, op):
+        if isinstance(other, Series):
+            return Series([op(a, b) for a, b in zip(self.vals, other.vals)], self.index)
+        return Series([op(a, other) for a in self.vals], self.index)
+
+    def __add__(self, o): return self._bin(o, lambda a, b: a + b)
+    def __radd__(self, o): return self._bin(o, lambda a, b: b + a)
+    def __sub__(self, o): return self._bin(o, lambda a, b: a - b)
+    def __mul__(self, o): return self._bin(o, lambda a, b: a * b)
+    def __rmul__(self, o): return self._bin(o, lambda a, b: b * a)
+    def __truediv__(self, o): return self._bin(o, lambda a, b: a / b)
+    def __neg__(self): return Series([-a for a in self.vals], self.index)
+    def __eq__(self, o): return self._bin(o, lambda a, b: a == b)
+    def __lt__(self, o): return self._bin(o, lambda a, b: a < b)
+    def __le__(self, o): return self._bin(o, lambda a, b: a <= b)
+    def __gt__(self, o): return self._bin(o, lambda a, b: a > b)
+    def __ge__(self, o): return self._bin(o, lambda a, b: a >= b)
+
+    def _valid(self):
+        return [(i, v) for i, v in enumerate(self.vals) if not _isnan(v)]
+
     def min(self):
-        m = self.vals[0]
-        for v in self.vals[1:]:
-            if v < m: m = v
+        vs = [v for _, v in self._valid()]
+        if not vs:
+            return NAN
+        m = vs[0]
+        for v in vs[1:]:
+            if v < m:
+                m = v
         return m
-    def __eq__(self, other): return Series([v == other for v in self.vals])
+
+    def max(self):
+        vs = [v for _, v in self._valid()]
+        if not vs:
+            return NAN
+        m = vs[0]
+        for v in vs[1:]:
+            if v > m:
+                m = v
+        return m
+
+    def idxmin(self):
+        vs = self._valid()
+        if not vs:
+            raise ValueError("attempt to get argmin of an empty sequence")
+        bi, bv = vs[0]
+        for i, v in vs[1:]:
+            if v < bv:
+                bi, bv = i, v
+        return self.index[bi]
+
+    def idxmax(self):
+        vs = self._valid()
+        if not vs:
+            raise ValueError("attempt to get argmax of an empty sequence")
+        bi, bv = vs[0]
+        for i, v in vs[1:]:
+            if v > bv:
+                bi, bv = i, v
+        return self.index[bi]
+
+    def mean(self):
+        vs = [v for _, v in self._valid()]
+        return sum(vs) / len(vs) if vs else NAN
+
     def rank(self, ascending=True, method="average"):
         out = []
+        valid = [v for _, v in self._valid()]
         for v in self.vals:
+            if _isnan(v):
+                out.append(NAN)
+                continue
             if ascending:
-                less = sum(1 for w in self.vals if w < v)
+                less = sum(1 for w in valid if w < v)
             else:
-                less = sum(1 for w in self.vals if w > v)
-            eq = sum(1 for w in self.vals if w == v)
+                less = sum(1 for w in valid if w > v)
+            eq = sum(1 for w in valid if w == v)
             if method == "average":
                 out.append(less + (eq + 1) / 2)
+            elif method == "min":
+                out.append(float(less + 1))
             elif method == "dense":
                 distinct = []
-                for w in self.vals:
+                for w in valid:
                     lt = (w < v) if ascending else (w > v)
-                    if lt and not any(w == d for d in distinct): distinct.append(w)
+                    if lt and not any(w == d for d in distinct):
+                        distinct.append(w)
                 out.append(float(len(distinct) + 1))
-            else: raise NotImplementedError(method)
-        return Series(out)
-class DataFrame:
-    def __init__(self, rows=None, cols=None):
-        if cols is not None: self.cols = cols; return
-        keys = []
-        for r in rows:
-            for k in r:
-                if k not in keys: keys.append(k)
-        self.cols = {k: [r.get(k) for r in rows] for k in keys}
+            else:
+                raise NotImplementedError(method)
+        return Series(out, self.index)
+
+    def sort_values(self, ascending=True):
+        order = sorted(range(len(self.vals)), key=lambda i: self.vals[i], reverse=not ascending)
+        return Series([self.vals[i] for i in order], [self.index[i] for i in order])
+
+
+class _ILoc:
+    def __init__(self, df):
+        self.df = df
+
     def __getitem__(self, k):
-        if isinstance(k, list): return DataFrame(cols={c: self.cols[c] for c in k})
+        if isinstance(k, list):
+            return DataFrame(cols={c: [vs[i] for i in k] for c, vs in self.df.cols.items()},
+                             index=[self.df.index[i] for i in k])
+        if isinstance(k, slice):
+            return DataFrame(cols={c: vs[k] for c, vs in self.df.cols.items()}, index=self.df.index[k])
+        return Series([vs[k] for vs in self.df.cols.values()], list(self.df.cols.keys()))
+
+
+class _Loc(_ILoc):
+    def __getitem__(self, k):
+        if isinstance(k, list):
+            return _ILoc.__getitem__(self, [self.df.index.index(i) for i in k])
+        return _ILoc.__getitem__(self, self.df.index.index(k))
+
+
+class DataFrame:
+    def __init__(self, rows=None, cols=None, index=None):
+        if cols is not None:
+            self.cols = cols
+        elif isinstance(rows, dict):
+            self.cols = {k: list(v) for k, v in rows.items()}
+        else:
+            keys = []
+            for r in rows:
+                for k in r:
+                    if k not in keys:
+                        keys.append(k)
+            self.cols = {k: [r.get(k, NAN) for r in rows] for k in keys}
+        n = len(next(iter(self.cols.values()))) if self.cols else 0
+        self.index = list(index) if index is not None else list(range(n))
+
+    @property
+    def columns(self):
+        return list(self.cols.keys())
+
+    @property
+    def iloc(self):
+        return _ILoc(self)
+
+    @property
+    def loc(self):
+        return _Loc(self)
+
+    def __len__(self):
+        return len(self.index)
+
+    def __getitem__(self, k):
+        if isinstance(k, list):
+            return DataFrame(cols={c: self.cols[c] for c in k}, index=self.index)
         if isinstance(k, Series):
-            return DataFrame(cols={c: [v for v, m in zip(vs, k.vals) if m] for c, vs in self.cols.items()})
-        return Series(self.cols[k])
-    def __setitem__(self, k, s): self.cols[k] = list(s.vals)
+            keep = [i for i, m in enumerate(k.vals) if m]
+            return DataFrame(cols={c: [vs[i] for i in keep] for c, vs in self.cols.items()},
+                             index=[self.index[i] for i in keep])
+        return Series(self.cols[k], self.index)
+
+    def __setitem__(self, k, s):
+        self.cols[k] = list(s.vals) if isinstance(s, Series) else list(s)
+
     def _rows(self):
-        n = len(next(iter(self.cols.values())))
-        return [[self.cols[c][i] for c in self.cols] for i in range(n)]
-    def mean(self, axis=1): return Series([sum(r) / len(r) for r in self._rows()])
-    def std(self, axis=1):   # variance stands in for std (rank-equivalent); n >= 2
+        return [[self.cols[c][i] for c in self.cols] for i in range(len(self.index))]
+
+    def mean(self, axis=1):
+        return Series([sum(r) / len(r) for r in self._rows()], self.index)
+
+    def std(self, axis=1):          # variance stands in for std (rank-equivalent); NaN for a single column, as pandas
         out = []
         for r in self._rows():
-            m = sum(r) / len(r); out.append(sum((x - m) * (x - m) for x in r) / (len(r) - 1))
-        return Series(out)
-    def apply(self, fn, axis=1): return Series([fn(r) for r in self._rows()])
-    def to_dict(self): return dict(self.cols)
+            if len(r) < 2:
+                out.append(NAN)
+                continue
+            m = sum(r) / len(r)
+            out.append(sum((x - m) * (x - m) for x in r) / (len(r) - 1))
+        return Series(out, self.index)
+
+    def apply(self, fn, axis=1):
+        return Series([fn(r) for r in self._rows()], self.index)
+
+    def sort_values(self, by, ascending=True):
+        order = sorted(range(len(self.index)), key=lambda i: self.cols[by][i], reverse=not ascending)
+        return DataFrame(cols={c: [vs[i] for i in order] for c, vs in self.cols.items()},
+                         index=[self.index[i] for i in order])
+
+    def head(self, n=5):
+        return self.iloc[list(range(min(n, len(self.index))))]
+
+    def to_dict(self):
+        return {c: dict(zip(self.index, vs)) for c, vs in self.cols.items()}
